@@ -226,6 +226,62 @@ pub fn explore<T: Send + 'static>(
     Ok(ex)
 }
 
+// ---- environment answers: short reads and errors at one chosen read call ----------------------
+// A read may return fewer bytes than asked for, or fail (EIO, EINTR): answers the kernel is free to
+// give and a local regular file never gives. A thread that armed an injection gets the chosen
+// answer at its n-th read-side call and the C library's answer at all others.
+
+#[derive(Clone, Copy, Debug, PartialEq, Eq, Hash)]
+pub enum Inj {
+    /// the call is made with at most this many bytes
+    Short(usize),
+    /// the call fails with this errno without reaching the kernel
+    Errno(i32),
+}
+
+thread_local! {
+    /// (index of the read call to answer differently, the answer); u32::MAX = only count
+    static INJ: Cell<Option<(u32, Inj)>> = const { Cell::new(None) };
+    static NCALL: Cell<u32> = const { Cell::new(0) };
+}
+
+/// Runs `f` on this thread with the injection armed; returns its result and the number of
+/// read-side calls it made.
+pub fn with_injection<T>(at: u32, inj: Inj, f: impl FnOnce() -> T) -> (T, u32) {
+    std::hint::black_box([read as *const () as usize, pread as *const () as usize, pread64 as *const () as usize]);
+    INJ.with(|i| i.set(Some((at, inj))));
+    NCALL.with(|n| n.set(0));
+    let r = std::panic::catch_unwind(std::panic::AssertUnwindSafe(f));
+    INJ.with(|i| i.set(None));
+    let n = NCALL.with(|n| n.get());
+    match r {
+        Ok(v) => (v, n),
+        Err(p) => std::panic::resume_unwind(p),
+    }
+}
+
+/// What the wrapper of a read-side call has to do: Ok(max bytes) or Err(errno).
+fn answer(n: usize) -> Result<usize, i32> {
+    let Some((at, inj)) = INJ.try_with(|i| i.get()).ok().flatten() else { return Ok(n) };
+    let k = NCALL.with(|c| {
+        let k = c.get();
+        c.set(k + 1);
+        k
+    });
+    if k != at {
+        return Ok(n);
+    }
+    match inj {
+        Inj::Short(m) => Ok(n.min(m.max(1))),
+        Inj::Errno(e) => Err(e),
+    }
+}
+
+unsafe fn fail(e: i32) -> libc::ssize_t {
+    *libc::__errno_location() = e;
+    -1
+}
+
 // ---- the interposed calls ---------------------------------------------------------------------
 
 macro_rules! real {
@@ -246,18 +302,30 @@ macro_rules! real {
 #[no_mangle]
 pub unsafe extern "C" fn read(fd: libc::c_int, buf: *mut libc::c_void, n: libc::size_t) -> libc::ssize_t {
     point("read");
+    let n = match answer(n) {
+        Ok(n) => n,
+        Err(e) => return fail(e),
+    };
     real!("read", unsafe extern "C" fn(libc::c_int, *mut libc::c_void, libc::size_t) -> libc::ssize_t)(fd, buf, n)
 }
 
 #[no_mangle]
 pub unsafe extern "C" fn pread(fd: libc::c_int, buf: *mut libc::c_void, n: libc::size_t, off: libc::off_t) -> libc::ssize_t {
     point("pread");
+    let n = match answer(n) {
+        Ok(n) => n,
+        Err(e) => return fail(e),
+    };
     real!("pread", unsafe extern "C" fn(libc::c_int, *mut libc::c_void, libc::size_t, libc::off_t) -> libc::ssize_t)(fd, buf, n, off)
 }
 
 #[no_mangle]
 pub unsafe extern "C" fn pread64(fd: libc::c_int, buf: *mut libc::c_void, n: libc::size_t, off: libc::off64_t) -> libc::ssize_t {
     point("pread");
+    let n = match answer(n) {
+        Ok(n) => n,
+        Err(e) => return fail(e),
+    };
     real!("pread64", unsafe extern "C" fn(libc::c_int, *mut libc::c_void, libc::size_t, libc::off64_t) -> libc::ssize_t)(fd, buf, n, off)
 }
 
